@@ -876,6 +876,9 @@ func propView(raw []byte, signed map[string]bool, bodySigned bool) string {
 		for i, v := range vs {
 			tr[i] = collapse(strings.TrimSpace(v))
 		}
+		if lk == "authorization" && len(vs) == 1 {
+			tr[0] = normAuthorization(vs[0])
+		}
 		hs = append(hs, lk+":"+strings.Join(tr, ","))
 	}
 	sort.Strings(hs)
@@ -960,6 +963,36 @@ func byteEdit(q sigreq.Req, w *sigreq.Wire, s *sigreq.Signed, raw []byte, e Edit
 		return "", true
 	}
 	return fmt.Sprintf("byte edit op=%d at byte %d (%q -> %q) accepted as %q although the request differs (mode %s):\n%s", e.Op%3, i, string(raw[max(0, i-20):min(len(raw), i+20)]), string(mut[max(0, i-20):min(len(mut), i+20)]), res.KeyID, q.Mode, string(mut[:min(len(mut), headEnd+1)])), true
+}
+
+// normAuthorization removes formatting freedom of the Authorization header that carries no meaning:
+// blanks around the comma separated fields and inside the SignedHeaders list, case/order/duplicates of
+// the listed header names.
+func normAuthorization(v string) string {
+	alg, rest, ok := strings.Cut(strings.TrimSpace(v), " ")
+	if !ok {
+		return v
+	}
+	fields := strings.Split(rest, ",")
+	for i, f := range fields {
+		f = strings.TrimSpace(f)
+		if names, ok := strings.CutPrefix(f, "SignedHeaders="); ok {
+			set := map[string]bool{}
+			for _, n := range strings.Split(names, ";") {
+				if n = strings.ToLower(strings.TrimSpace(n)); n != "" {
+					set[n] = true
+				}
+			}
+			var l []string
+			for n := range set {
+				l = append(l, n)
+			}
+			sort.Strings(l)
+			f = "SignedHeaders=" + strings.Join(l, ";")
+		}
+		fields[i] = f
+	}
+	return alg + " " + strings.Join(fields, ",")
 }
 
 func fuzzOne(which uint8, pos uint16, val uint8, op uint8) string {
